@@ -95,6 +95,34 @@ Theorem C12_alpha_buffer_only_shrinks : forall kind d maxn now nd id ts s t nd' 
 Proof. exact StreamAlphaProofs.buffer_only_shrinks. Qed.
 Print Assumptions C12_alpha_buffer_only_shrinks.
 
+(** WindowManager::process_event (tumbling windows with expiry of windows that ended before the event and a bound on the
+    number of windows; Proofs/WindowManagerProofs.v), after EVERY event of EVERY arrival sequence - in order, reversed,
+    shuffled, late events re-opening an interval whose window has expired: the retained windows are aligned intervals
+    [k*dur, (k+1)*dur) with pairwise different starts in ascending order, each holds only events of its own interval, at
+    most max_windows are retained, and the event just processed sits in exactly one window - the one of the aligned
+    interval that contains its timestamp. *)
+From RRE Require Import Proofs.WindowManagerProofs.
+From Coq Require Import Sorting.Sorted Lia.
+Theorem C12_manager_places_every_event_once : forall dur cap maxw, 0 < dur -> 1 <= cap -> 1 <= maxw ->
+  forall es e,
+  let ws := fold_left (process_event dur cap maxw) es [] in
+  let ws' := process_event dur cap maxw ws e in
+  (forall w, In w ws' -> (w_end w = w_start w + dur /\ w_start w mod dur = 0) /\
+                         forall x, In x (w_events w) -> w_start w <= ets x /\ ets x < w_end w) /\
+  StronglySorted (fun a b => w_start a < w_start b) ws' /\
+  (length ws' <= N.to_nat maxw)%nat /\
+  (exists w, In w ws' /\ In e (w_events w) /\ w_start w = (ets e / dur) * dur /\ w_end w = (ets e / dur) * dur + dur) /\
+  (forall w1 w2, In w1 ws' -> In w2 ws' -> In e (w_events w1) -> In e (w_events w2) -> w1 = w2).
+Proof.
+  intros dur cap maxw Hd Hc Hm es e ws ws'.
+  pose proof (manager_reachable dur cap maxw Hd Hc Hm es) as I. fold ws in I.
+  destruct (process_event_spec dur cap maxw Hd Hc Hm ws e I) as (I' & Ex & Un). fold ws' in I', Ex, Un.
+  split; [|split; [exact (m_sorted _ _ _ I')|split; [exact (m_bound _ _ _ I')|split; [exact Ex|exact Un]]]].
+  intros w Hw. destruct (m_aligned _ _ _ I' w Hw) as [[Ae Ax] Am]. split; [split; assumption|].
+  intros x Hx. pose proof (Ax x Hx) as Es. destruct (al_range dur x Hd) as [R1 R2]. unfold al in R1, R2. rewrite Ae, Es. split; lia.
+Qed.
+Print Assumptions C12_manager_places_every_event_once.
+
 (** non-vacuity: the pre-repair witness (duration 50; records at 120, 10, 165) *)
 Example C12_example :
   let ev i t := {| eid := i; ets := t; efld := FInteger 1 |} in
